@@ -45,14 +45,21 @@ CLAIMS = {
         "design_ref": "DESIGN.md section 3, C04",
     },
     "C08": {
-        "technique": "contract-based deductive verification (Verus) of the extracted real function, statement slice S1",
-        "text": "Unbounded proof of the count-typing rule only: InterpolationKeys::push_count accepts a count variable "
-                "iff it was untyped or already had exactly this range type / plural kind, reports range-vs-plural mixes "
-                "and range type mismatches with the right payload, and changes nothing else of the variable.",
-        "note": "Slice S1: the VarInfo fetched with entry(count_key).or_default() is a universally quantified "
-                "parameter (not shown: that it is count_key's entry). Assumed std contracts: Option::replace, mem::take, "
-                "Box::from. Not covered: accumulation over locales (get_keys_inner), the typed builder (rustc).",
-        "design_ref": "DESIGN.md section 3, C08",
+        "technique": "contract-based deductive verification (Verus) of the extracted real functions",
+        "text": "Unbounded proofs: (1) ParsedValue::get_keys_inner / get_keys: every interpolated variable, every component, "
+                "and the count variable of every range / plural occurring in a value (any nesting depth) is required by the "
+                "accumulator afterwards, and whatever was required before (other locales, other parts) still is -- the "
+                "'nothing is missing from the union' half of the property; (2) InterpolationKeys::push_var / push_comp / "
+                "push_count and InterpolOrLit::get_interpol_keys_mut: exact effect on the accumulator, and the count-typing "
+                "rule (accepted iff untyped or same type; range-vs-plural mix and range type mismatch reported with the "
+                "right payload).",
+        "note": "Not shown: the converse (no spurious argument): vstd specifies BTreeMap::values() only as 'every value is "
+                "listed'. Assumed: A3 `BTreeMap::entry(k).or_default()`; Option::replace, mem::take, Box::from; the contract "
+                "of Ranges::get_keys_inner (loop over typed branch vectors); a resolved foreign key contributes what the "
+                "referenced value contributes; lawfulness of Key / PluralForm ordering. Termination of get_keys_inner is not "
+                "proved (recursion through the RefCell of a foreign key). Not covered: ParsedValue::merge (where the calls per "
+                "locale are made), the typed builder (rustc).",
+        "design_ref": "DESIGN.md section 3 C08, 8.5",
     },
     "C09": {
         "technique": "contract-based deductive verification (Verus termination/panic-freedom obligations, Kani overflow checks) "
